@@ -480,7 +480,7 @@ class System:
         self._g.attrs["nodes"][comp._params["name"]] = cidx
         self._g.attrs["phase_conf"][comp._params["name"]] = {}
         self._g.attrs["groups"][comp._params["name"]] = group
-        self._g.attrs["pnames"][cidx] = plist
+        self._g.attrs["pnames"][cidx] = [self._g[i]._params["name"] for i in pidx]
         if comp._component_type == _ComponentTypes.LOAD and rail != "":
             warn(
                 "rail parameter ignored, not applicable on loads",
@@ -614,6 +614,12 @@ class System:
         # replace node name in graph dict
         del [self._g.attrs["nodes"][name]]
         self._g.attrs["nodes"][comp._params["name"]] = eidx
+        # replace node name in the input lists of its childs
+        for c in self._g.successor_indices(eidx):
+            self._g.attrs["pnames"][c] = [
+                comp._params["name"] if p == name else p
+                for p in self._g.attrs["pnames"][c]
+            ]
         # delete old phase config and set new default
         del [self._g.attrs["phase_conf"][name]]
         self._g.attrs["phase_conf"][comp._params["name"]] = {}
@@ -690,8 +696,16 @@ class System:
         # restore links between new parent and childs, unless deleted
         if not del_childs:
             if childs[eidx] != -1:
+                pname = self._g[parents[eidx][0]]._params["name"]
                 for c in childs[eidx]:
                     self._g.add_edge(parents[eidx][0], c, None)
+                    # the new parent takes the place of the deleted input
+                    pn = self._g.attrs["pnames"][c]
+                    if pname in pn:
+                        pn = [p for p in pn if p != name]
+                    else:
+                        pn = [pname if p == name else p for p in pn]
+                    self._g.attrs["pnames"][c] = pn
 
     def tree(self, name=""):
         """Print the tree structure of the system.
